@@ -213,7 +213,10 @@ fn run_case(case: &Value, variation: u64, vbp: &Path, scratch: &Path) -> Vec<Pro
     let mut cmd = Command::new(bp.join("bin").join(exe_name));
     cmd.args(&argv).current_dir(&app).env_clear().envs(std::env::var_os("LLVM_PROFILE_FILE").map(|v| ("LLVM_PROFILE_FILE", v))).env("VBP_SCRIPT", t.join("script.json")).env("VBP_OUT", &vout).env("PATH", "/usr/bin:/bin");
     if c("bpdir") == "set" { cmd.env("CNB_BUILDPACK_DIR", &bp); }
-    let tvals = [("t_os", "CNB_TARGET_OS", "linux"), ("t_arch", "CNB_TARGET_ARCH", "arm64"), ("t_dname", "CNB_TARGET_DISTRO_NAME", "ubuntu core"), ("t_dver", "CNB_TARGET_DISTRO_VERSION", "24.04")];
+    // the target values are the platform's: whatever they are, they reach the context verbatim
+    let tset: [[&str; 4]; 4] = [["linux", "arm64", "ubuntu core", "24.04"], ["windows", "amd64", "nanoserver", "10.0.20348.1970"], ["linux", "", "", ""], ["freebsd", "riscv64", "  padded ", "0"]];
+    let tpick = tset[(hash(&case.to_string()) as usize + variation as usize) % tset.len()];
+    let tvals = [("t_os", "CNB_TARGET_OS", tpick[0]), ("t_arch", "CNB_TARGET_ARCH", tpick[1]), ("t_dname", "CNB_TARGET_DISTRO_NAME", tpick[2]), ("t_dver", "CNB_TARGET_DISTRO_VERSION", tpick[3])];
     for (f, var, val) in tvals {
         if c(f) == "set" { cmd.env(var, val); }
     }
@@ -393,7 +396,7 @@ fn run_case(case: &Value, variation: u64, vbp: &Path, scratch: &Path) -> Vec<Pro
                 if ctx["app_dir"] != json!(hx(&app)) { p6(format!("app_dir: context has {}, platform supplied {}", ctx["app_dir"], hx(&app))); }
                 if ctx["buildpack_dir"] != json!(hx(&bp)) { p6(format!("buildpack_dir: context has {}, platform supplied {}", ctx["buildpack_dir"], hx(&bp))); }
                 if c("exe") == "build" && ctx["layers_dir"] != json!(hx(&layers)) { p6(format!("layers_dir: context has {}, platform supplied {}", ctx["layers_dir"], hx(&layers))); }
-                let want_t = json!({"os": "linux", "arch": "arm64", "arch_variant": match c("t_variant") { "set" => json!("v8"), "empty" => json!(""), _ => Value::Null }, "distro_name": "ubuntu core", "distro_version": "24.04"});
+                let want_t = json!({"os": tpick[0], "arch": tpick[1], "arch_variant": match c("t_variant") { "set" => json!("v8"), "empty" => json!(""), _ => Value::Null }, "distro_name": tpick[2], "distro_version": tpick[3]});
                 if ctx["target"] != want_t { p6(format!("target: context has {}, CNB_TARGET_* say {}", ctx["target"], want_t)); }
                 let want_env: Vec<(String, String)> = expected_env.iter().map(|(k, v)| (hex(k), hex(v))).collect();
                 if ctx["env"] != json!(want_env) { p6(format!("platform env: context has {} entries {:?}, the platform directory holds {:?}", ctx["env"].as_array().map_or(0, Vec::len), ctx["env"], want_env)); }
